@@ -298,15 +298,26 @@ theorem mu_react (c : Cfg) (w : CoreB.WF c) (st st' : StB) (s : Nat)
             · exact hsn
             · simp only [wO, exitLoop, hph, hrx]; w_close
         · split at h
-          · cases h
-          · rename_i a' ha
-            cases h
-            obtain ⟨D', hD', ⟨hsn, _⟩, ⟨S, hS, hph⟩, hcreq, hdeliv, hpc, hrx, hnow⟩ := stepA_react_go ha
-            apply mu_lt_of (k := s)
-            · intro k hk; simp [wD, hdeliv]
-            · intro k hk; simp only [wO, hph, hrx]; w_close
-            · exact hsn
-            · simp only [wO, hph, hrx]; w_close
+          · split at h
+            · cases h
+            · rename_i a' ha
+              cases h
+              obtain ⟨_, ⟨hsn, _⟩, hph, hcreq, hdeliv, hpc, hrx, hnow⟩ := stepA_react_leave ha
+              apply mu_lt_of (k := s)
+              · intro k hk; simp [wD, exitLoop, hdeliv]
+              · intro k hk; simp only [wO, exitLoop, hph, hrx]; w_close
+              · exact hsn
+              · simp only [wO, exitLoop, hph, hrx]; w_close
+          · split at h
+            · cases h
+            · rename_i a' ha
+              cases h
+              obtain ⟨D', hD', ⟨hsn, _⟩, ⟨S, hS, hph⟩, hcreq, hdeliv, hpc, hrx, hnow⟩ := stepA_react_go ha
+              apply mu_lt_of (k := s)
+              · intro k hk; simp [wD, hdeliv]
+              · intro k hk; simp only [wO, hph, hrx]; w_close
+              · exact hsn
+              · simp only [wO, hph, hrx]; w_close
   · cases h
 
 theorem mu_timeoutFire (c : Cfg) (w : CoreB.WF c) (st st' : StB) (s : Nat)
